@@ -99,6 +99,8 @@ type Ctx struct {
 	HorizonD time.Duration
 	lastMs   int64
 	tainted  bool
+	capture  *[]CapturedViol
+	capCount bool
 }
 
 const tailLen = 120
@@ -128,8 +130,42 @@ func (c *Ctx) Logf(f string, a ...any) {
 	}
 }
 
-func (c *Ctx) Probe(name string)  { c.Res.Probes[name]++ }
-func (c *Ctx) Judged(name string) { c.Res.Judged[name]++ }
+func (c *Ctx) Probe(name string) {
+	if c.capture != nil && !c.capCount {
+		return
+	}
+	c.Res.Probes[name]++
+}
+func (c *Ctx) Judged(name string) {
+	if c.capture != nil && !c.capCount {
+		return
+	}
+	c.Res.Judged[name]++
+}
+
+// CapturedViol is a violation held back by Capture.
+type CapturedViol struct {
+	Prop, Oracle string
+	Facts        map[string]any
+	Msg          string
+}
+
+// Capture runs f with violations held back instead of recorded: a verdict on a publication that
+// may be superseded by a later publication of the same event (re-judged then, reported only if the
+// last one still fails). count tells whether judged / probe counters are bumped by this evaluation.
+func (c *Ctx) Capture(count bool, f func()) []CapturedViol {
+	var got []CapturedViol
+	c.capture, c.capCount = &got, count
+	defer func() { c.capture = nil }()
+	f()
+	return got
+}
+
+func (c *Ctx) Emit(vs []CapturedViol) {
+	for _, v := range vs {
+		c.Viol(v.Prop, v.Oracle, v.Facts, "%s", v.Msg)
+	}
+}
 func (c *Ctx) Fault(name string)  { c.Res.Faults[name]++ }
 func (c *Ctx) Inconc(name string) { c.Res.Inconclusive[name]++ }
 func (c *Ctx) Stat(name string, d int64) {
@@ -142,6 +178,10 @@ func (c *Ctx) Viol(prop, oracle string, facts map[string]any, f string, a ...any
 		facts = map[string]any{}
 	}
 	msg := fmt.Sprintf(f, a...)
+	if c.capture != nil {
+		*c.capture = append(*c.capture, CapturedViol{prop, oracle, facts, msg})
+		return
+	}
 	// keep at most 3 per oracle per run
 	n := 0
 	for _, v := range c.Res.Violations {
